@@ -90,9 +90,9 @@ def copy_headers(srcdirs, hdr, log, r2_types):
 TYPEDEF_RX = re.compile(r'typedef\s+((?:std::)?(?:map|vector|set|pair)\s*<[^;]+>)\s+(\w+)\s*;')
 
 
-def typedef_table(hdr):
+def typedef_table(hdr, extra=()):
     tab = {}
-    for f in sorted(glob.glob(hdr + "/*.h")):
+    for f in sorted(glob.glob(hdr + "/*.h")) + [x for x in extra if os.path.exists(x)]:
         for m in TYPEDEF_RX.finditer(open(f, errors="replace").read()):
             tab.setdefault(m.group(2), set()).add(re.sub(r'\s+', ' ', m.group(1)))
     return tab
@@ -135,6 +135,7 @@ def build_tu(vu, work, canary=None):
     tpl = open(os.path.join(vdir, vu.get("tu", "tu.cpp"))).read().split("\n")
     canary_applied = False
     emitted_using = set()
+    all_usings = []
     for ln in tpl:
         m = DIRECTIVE.match(ln)
         if not m:
@@ -192,6 +193,8 @@ def build_tu(vu, work, canary=None):
             if rc != 0:
                 raise Undecided("extraction", "generator %s failed: %s" % (pos[0], (so + se)[-800:]))
             log["rewrites"].append("generated by %s: %s" % (pos[0], so.strip()[:300]))
+        elif kind == "usings":
+            out.append("//@@USINGS@@")
         elif kind == "splice":
             # text generated earlier in this run (by //@generate) becomes part of the TU
             out.append(open(os.path.join(work, pos[0])).read())
@@ -246,7 +249,7 @@ def build_tu(vu, work, canary=None):
                         raise X.ExtractionError("R3 did not fire on %s" % e.qualname)
                     e.rewrites.append("R3 range-for -> index loop x%d" % k)
                 if kind in ("extract", "whole", "block"):
-                    rule_r7(e, typedef_table(hdr))
+                    rule_r7(e, typedef_table(hdr, [os.path.join(vdir, "env.h")]))
                 if "r15" in pos:
                     # R15: `("literal" + s` -> `(std::string("literal") + s` (the front end does not find operator+ for a char array)
                     e.text, k = re.subn(r'(?<!\+ )("[^"\n]*") \+ ', r'std::string(\1) + ', e.text)
@@ -300,7 +303,10 @@ def build_tu(vu, work, canary=None):
                 for u in re.findall(r'(?m)^using\s+(?:std::\w+|namespace\s+std)\s*;', text):
                     if u not in emitted_using:
                         emitted_using.add(u)
-                        out.append(u)
+                        if "//@@USINGS@@" in out:
+                            all_usings.append(u)       # spliced at the //@usings placeholder
+                        else:
+                            out.append(u)
             out.append('#line %d "%s"' % (e.line, path))
             out.append(e.text)
             out.append('#line %d "tu.cpp"' % (len(out) + 2))
@@ -316,8 +322,28 @@ def build_tu(vu, work, canary=None):
         raise Undecided("canary-did-not-apply", canary["id"])
     for extra in vu.get("copy", []):
         shutil.copy(os.path.join(vdir, extra), os.path.join(work, extra))
+    out = [("\n".join(all_usings) if x == "//@@USINGS@@" else x) for x in out]
     open(os.path.join(work, "tu.cpp"), "w").write("\n".join(out) + "\n")
     return log
+
+
+def conformance_check(vu, work):
+    """Native check (g++ -fsyntax-only against the REAL headers of the working tree) that the VU's skeleton classes agree
+    with the real declarations: vu/<name>/conformance.cpp holds the static_asserts.  A mismatch is 'environment drift'."""
+    src = os.path.join(vu["_dir"], "conformance.cpp")
+    if not os.path.exists(src):
+        return None
+    gen = os.path.join(work, "gen")
+    os.makedirs(gen, exist_ok=True)
+    rc, so, se, dt = run(["bison", "-o", os.path.join(gen, "cppBison.cxx"), "--defines=" + os.path.join(gen, "cppBison.h"), "-p", "cppyy",
+                          os.path.join(REPO, "src/cppparser/cppBison.yxx")], cwd=work, timeout=120)
+    incs = []
+    for d in ("interrogate", "interrogatedb", "cppparser", "dtoolutil", "dtoolbase"):
+        incs += ["-I", os.path.join(REPO, "src", d)]
+    rc, so, se, dt = run(["g++", "-std=gnu++11", "-fsyntax-only", "-fno-access-control", "-DNDEBUG"] + incs + ["-I", gen, src], cwd=work, timeout=300)
+    if rc != 0:
+        raise Undecided("environment-drift", "skeleton classes of %s no longer agree with the real headers: %s" % (vu["name"], (so + se)[-1500:]))
+    return dt
 
 
 def compile_tu(vu, work, extra_defs=(), out="tu.gb"):
@@ -523,6 +549,7 @@ def vu_pipeline(vu, pid, tier, seed, workroot, pool):
     try:
         log = build_tu(vu, work)
         out["log"] = log
+        conformance_check(vu, work)
         t_cc = compile_tu(vu, work)
         out["compile_s"] = round(t_cc, 2)
         do_cover = vu.get("cover", True) and not os.environ.get("VERIF_NO_COVER")
